@@ -16,7 +16,11 @@ CONSTANTS
   Defect = "none"
   AllowBadConfig = FALSE
   Emit = FALSE
+  Faults <- NoFaults
+  QS <- NoQ
+  Ops <- AllOps
+  Big = FALSE
 VIEW MCView
 INVARIANTS TypeOK NoFalseNegative AnswersHonourObligations AnswersPerKey
-PROPERTIES CountMonotone
+PROPERTIES CountMonotone AddNilMeansPresent
 CHECK_DEADLOCK FALSE
